@@ -389,6 +389,37 @@ def gff_case(seqid, source, typ, attrs):
     return None
 
 
+def gff_columns(start, end, score, strand, phase, how):
+    """the numeric columns and the 'undefined' markers: score (any float incl. 0 and None), strand (+, -, None),
+    phase (0, 1, 2, None) come back as given, through append / insert / item assignment, from the file object and
+    from its text read again"""
+    f = gff.GFFFile()
+    entry = ("chr1", "src", "CDS", start, end, score, strand, phase, {"ID": "x"})
+    f.append("chr0", "src", "gene", 1, 2, 7.0, Location.Strand.FORWARD, 1, {"ID": "first"})
+    if how == "append":
+        f.append(*entry)
+        at = 1
+    elif how == "insert":
+        f.insert(0, *entry)
+        at = 0
+    else:
+        f[0] = entry
+        at = 0
+    g = gff.GFFFile.read(io.StringIO(text_of(f)))
+    for name, obj in (("file object", f), ("text read again", g)):
+        got = tuple(obj[at])
+        if got != entry or type(got[5]) is not type(entry[5]) and entry[5] is not None and not isinstance(got[5], float):
+            return f"{how}: {name} gives {got!r}, given {entry!r}; text {text_of(f)!r}"
+    return None
+
+
+for score in (None, 0, 0.0, -0.0, 1e-30, 57.5, -3.25, 1, 1e10):
+    for strand, phase in ((Location.Strand.FORWARD, 0), (Location.Strand.REVERSE, 2), (None, None), (Location.Strand.FORWARD, 1)):
+        for how in ("append", "insert", "setitem"):
+            R.check("GFF3 round trip", "gff score / strand / phase columns", {"score": score, "strand": str(strand), "phase": phase, "how": how},
+                    lambda score=score, strand=strand, phase=phase, how=how: gff_columns(3, 30, score, strand, phase, how))
+
+
 def gff_annotation(features):
     annot = Annotation(features)
     f = gff.GFFFile()
